@@ -1,42 +1,865 @@
+// Command heap binds spec/Heap.tla to the real code (property C16).
+//
+//	heap replay <vectors.ndjson> <shard> <nshards> [case]
+//	      executes every TLC-exported operation sequence on every record type of
+//	      dns.TypeToRR (fully populated by reflection), on an unknown-type record, a
+//	      registered private type and on whole messages (Msg.Copy and Msg.CopyTo), and
+//	      compares the real heap after each step with what the specification predicts.
+//	heap record <out.ndjson> <episodes>
+//	      random operation sequences over random types; each event carries the observed
+//	      heap (region ids per backing store, content digests) for Trace_Heap.
+//	heap kinds
+//	      lists the cases.
+//
+// The harness does not decide what a correct copy is: which objects may change, which
+// must be equal and which regions must be disjoint comes from the vector (replay) or is
+// judged by TLC (record).  The harness observes: addresses, deep snapshots.
 package main
 
 import (
+	"bytes"
+	"crypto"
 	"fmt"
 	"os"
+	"runtime/debug"
+	"runtime/pprof"
+	"sort"
+	"strconv"
+	"strings"
 
 	"github.com/miekg/dns"
 
+	"verifharness/lib/hx"
 	rw "verifharness/lib/reflectwalk"
 )
 
-func main() {
-	for _, k := range rw.Kinds() {
-		rr := k.Build()
-		buf := make([]byte, 4096)
-		off, err := dns.PackRR(rr, buf, 0, nil, false)
-		var rr2 dns.RR
-		var err2 error
-		if err == nil {
-			rr2, _, err2 = dns.UnpackRR(buf[:off], 0)
+// ---------------------------------------------------------------------------
+// objects under test
+
+type object interface {
+	Root() interface{}
+	Copy() object
+	Persist(slot int) // a persistent, validity-preserving mutation
+	RO(op string, other object, sum *hx.Summary, cs string) bool
+	Pack() ([]byte, error)
+}
+
+type rrObj struct{ rr dns.RR }
+type msgObj struct {
+	m      *dns.Msg
+	copyTo bool
+}
+
+var (
+	signKey  crypto.Signer
+	signDNS  *dns.DNSKEY
+	allKinds = rw.Kinds()
+)
+
+func initKey() {
+	k := &dns.DNSKEY{Hdr: dns.RR_Header{Name: "Example.ORG.", Rrtype: dns.TypeDNSKEY, Class: dns.ClassINET, Ttl: 3600},
+		Flags: 257, Protocol: 3, Algorithm: dns.ED25519}
+	p, err := k.Generate(256)
+	if err != nil {
+		hx.Die("keygen: %v", err)
+	}
+	signKey = p.(crypto.Signer)
+	signDNS = k
+}
+
+func newSig() *dns.RRSIG {
+	return &dns.RRSIG{Hdr: dns.RR_Header{Ttl: 3600}, Algorithm: dns.ED25519, KeyTag: signDNS.KeyTag(), SignerName: signDNS.Hdr.Name,
+		Inception: 1700000000, Expiration: 1900000000}
+}
+
+// signVerify runs Sign (and Verify when asked) on rrset; the arguments of Verify other
+// than the rrset -- the RRSIG and the key -- are observed here, the rrset by the caller.
+func signVerify(rrset []dns.RR, verify bool, sum *hx.Summary, cs string) bool {
+	if len(rrset) == 0 {
+		return false
+	}
+	sig := newSig()
+	if !verify {
+		return sig.Sign(signKey, rrset) == nil
+	}
+	fix := make([]dns.RR, len(rrset)) // the signature to verify is made over an equal rrset
+	for i, r := range rrset {
+		fix[i] = dns.Copy(r)
+	}
+	if err := sig.Sign(signKey, fix); err != nil {
+		return false
+	}
+	s0, k0 := rw.Walk(sig), rw.Walk(signDNS)
+	err := sig.Verify(signDNS, rrset)
+	s1, k1 := rw.Walk(sig), rw.Walk(signDNS)
+	if s0.Exact() != s1.Exact() || s0.Bk != s1.Bk {
+		sum.Mis("readonly/verify-mutates:rrsig-argument", "RRSIG.Verify changed its receiver", map[string]interface{}{"case": cs})
+	}
+	if k0.Exact() != k1.Exact() || k0.Bk != k1.Bk {
+		sum.Mis("readonly/verify-mutates:dnskey-argument", "RRSIG.Verify changed the key", map[string]interface{}{"case": cs})
+	}
+	return err == nil
+}
+
+func (o *rrObj) Root() interface{} { return o.rr }
+func (o *rrObj) Copy() object      { return &rrObj{dns.Copy(o.rr)} }
+func (o *rrObj) Pack() ([]byte, error) {
+	b := make([]byte, dns.Len(o.rr)+16)
+	off, err := dns.PackRR(o.rr, b, 0, nil, false)
+	if err != nil {
+		return nil, err
+	}
+	return append([]byte(nil), b[:off]...), nil // a right-sized, separately allocated buffer
+}
+func (o *rrObj) Persist(slot int) {
+	if slot == 2 {
+		if persistNested(o.rr) {
+			return
 		}
-		s, cells := rw.WalkCells(rr)
-		fmt.Printf("%-12s pack=%v unpack=%v regions=%d cells=%d\n", k.Name, err, err2, len(s.Regions), len(cells))
-		if len(os.Args) > 1 && os.Args[1] == k.Name {
-			for _, r := range s.Regions {
-				fmt.Printf("   %s %x-%x %v\n      %s\n", r.Name, r.Lo, r.Hi, r.Paths, r.Exact)
-			}
-			fmt.Println("   bk:", s.Bk)
-			for _, c := range cells {
-				fmt.Printf("   cell %s (%s) part=%d ref=%v safe=%d\n", c.Path, c.Name, c.Part, c.Ref, c.Safe)
-			}
-			if rr2 != nil {
-				s2 := rw.Walk(rr2)
-				fmt.Println("  eq-after-roundtrip:", s2.Norm() == s.Norm())
-				if s2.Norm() != s.Norm() {
-					fmt.Println(s.Norm())
-					fmt.Println(s2.Norm())
+		o.rr.Header().Ttl ^= 4
+		return
+	}
+	o.rr.Header().Ttl ^= 2
+}
+func (o *rrObj) RO(op string, other object, sum *hx.Summary, cs string) bool {
+	switch op {
+	case "Pack":
+		b := make([]byte, 8192)
+		_, err := dns.PackRR(o.rr, b, 0, nil, false)
+		_, err2 := dns.PackRR(o.rr, b, 0, map[string]int{}, true)
+		return err == nil && err2 == nil
+	case "Len":
+		return dns.Len(o.rr) > 0
+	case "String":
+		return len(o.rr.String()) > 0
+	case "IsDuplicate":
+		r2 := o.rr
+		if p, ok := other.(*rrObj); ok && p != nil {
+			r2 = p.rr
+		}
+		dns.IsDuplicate(o.rr, r2)
+		dns.IsDuplicate(r2, o.rr)
+		return true
+	case "Copy":
+		return dns.Copy(o.rr) != nil
+	case "Sign":
+		return signVerify([]dns.RR{o.rr}, false, sum, cs)
+	case "Verify":
+		return signVerify([]dns.RR{o.rr}, true, sum, cs)
+	}
+	hx.Die("unknown read-only op %q", op)
+	return false
+}
+
+func (o *msgObj) Root() interface{} { return o.m }
+func (o *msgObj) Copy() object {
+	if o.copyTo {
+		dirty := buildMsg(true) // a used message: every section already populated
+		return &msgObj{o.m.CopyTo(dirty), o.copyTo}
+	}
+	return &msgObj{o.m.Copy(), o.copyTo}
+}
+func (o *msgObj) Pack() ([]byte, error) {
+	b, err := o.m.Pack()
+	if err != nil {
+		return nil, err
+	}
+	return append([]byte(nil), b...), nil
+}
+func (o *msgObj) Persist(slot int) {
+	if slot == 2 && len(o.m.Answer) > 0 {
+		o.m.Answer[0].Header().Ttl ^= 2
+		return
+	}
+	o.m.Id ^= 1
+}
+func (o *msgObj) RO(op string, other object, sum *hx.Summary, cs string) bool {
+	m := o.m
+	switch op {
+	case "Pack":
+		_, err := m.Pack()
+		_, err2 := m.PackBuffer(make([]byte, 16384))
+		return err == nil && err2 == nil
+	case "Len":
+		return m.Len() > 0
+	case "String":
+		return len(m.String()) > 0
+	case "IsDuplicate":
+		m2 := m
+		if p, ok := other.(*msgObj); ok && p != nil {
+			m2 = p.m
+		}
+		for _, pr := range [][2][]dns.RR{{m.Answer, m2.Answer}, {m.Ns, m2.Ns}, {m.Extra, m2.Extra}} {
+			for i := range pr[0] {
+				if i < len(pr[1]) {
+					dns.IsDuplicate(pr[0][i], pr[1][i])
+					dns.IsDuplicate(pr[1][i], pr[0][i])
 				}
 			}
 		}
+		return true
+	case "Copy":
+		return m.Copy() != nil
+	case "Sign":
+		return signVerify(m.Answer, false, sum, cs)
+	case "Verify":
+		return signVerify(m.Answer, true, sum, cs)
+	}
+	hx.Die("unknown read-only op %q", op)
+	return false
+}
+
+// persistNested changes, for good, one cell of a nested backing store such that the
+// record stays well-formed (an octet, the last entry of a type list, a text).
+func persistNested(root interface{}) bool {
+	_, cells := rw.WalkCells(root)
+	for i := len(cells) - 1; i >= 0; i-- {
+		if cells[i].Safe > 0 && cells[i].Part > 0 {
+			cells[i].Mutate()
+			return true
+		}
+	}
+	return false
+}
+
+func buildMsg(small bool) *dns.Msg {
+	m := new(dns.Msg)
+	m.Id = 0x1234
+	m.Response = true
+	m.RecursionDesired = true
+	m.Compress = true
+	m.Rcode = dns.RcodeBadVers // an extended RCODE: Pack writes its upper bits into the OPT header
+	m.Question = []dns.Question{{Name: "Host.Example.ORG.", Qtype: dns.TypeMX, Qclass: dns.ClassINET}}
+	for i := 0; i < 2; i++ {
+		mx := &dns.MX{}
+		rw.Populate(mx, dns.TypeMX)
+		mx.Preference = uint16(10 * (i + 1))
+		mx.Mx = "Mail" + strconv.Itoa(i) + ".Example.ORG."
+		m.Answer = append(m.Answer, mx)
+	}
+	var opt dns.RR
+	n := 0
+	for _, k := range allKinds {
+		rr := k.Build()
+		if k.Type == dns.TypeOPT {
+			opt = rr
+			continue
+		}
+		if small && k.Type != dns.TypeAAAA && k.Type != dns.TypeAPL && k.Type != dns.TypeSVCB && k.Type != dns.TypeNSEC && k.Type != dns.TypeTXT {
+			continue
+		}
+		if n%2 == 0 {
+			m.Ns = append(m.Ns, rr)
+		} else {
+			m.Extra = append(m.Extra, rr)
+		}
+		n++
+	}
+	m.Extra = append(m.Extra, opt)
+	return m
+}
+
+// ---------------------------------------------------------------------------
+// cases
+
+type tcase struct {
+	name   string
+	build  func() object
+	unpack func(buf []byte) (object, error)
+}
+
+func cases() []tcase {
+	var cs []tcase
+	for _, k := range allKinds {
+		k := k
+		cs = append(cs, tcase{name: k.Name,
+			build: func() object { return &rrObj{k.Build()} },
+			unpack: func(buf []byte) (object, error) {
+				rr, _, err := dns.UnpackRR(buf, 0)
+				if err != nil {
+					return nil, err
+				}
+				return &rrObj{rr}, nil
+			}})
+	}
+	for _, ct := range []bool{false, true} {
+		ct := ct
+		name := "Msg"
+		if ct {
+			name = "Msg/CopyTo"
+		}
+		cs = append(cs, tcase{name: name,
+			build: func() object { return &msgObj{buildMsg(false), ct} },
+			unpack: func(buf []byte) (object, error) {
+				m := new(dns.Msg)
+				if err := m.Unpack(buf); err != nil {
+					return nil, err
+				}
+				return &msgObj{m, ct}, nil
+			}})
+	}
+	return cs
+}
+
+// ---------------------------------------------------------------------------
+// replay
+
+type step struct {
+	Op    string  `json:"op"`
+	Ro    string  `json:"ro"`
+	X     int     `json:"x"`
+	Y     int     `json:"y"`
+	Slot  int     `json:"slot"`
+	Live  []int   `json:"live"`
+	Regs  [][]int `json:"regs"`
+	Vals  [][]int `json:"vals"`
+	Buf   int     `json:"buf"`
+	BufOK bool    `json:"bufok"`
+	Chg   []int   `json:"chg"`
+	Tgt   []int   `json:"tgt"`
+	BkMay []int   `json:"bkmay"`
+	Eq    []int   `json:"eq"`
+}
+
+type vector struct {
+	Ops  []step `json:"ops"`
+	Case string `json:"case,omitempty"` // set in replay files: restrict to one case
+}
+
+func has(xs []int, v int) bool {
+	for _, x := range xs {
+		if x == v {
+			return true
+		}
+	}
+	return false
+}
+
+func disjointInts(a, b []int) bool {
+	for _, x := range a {
+		if has(b, x) {
+			return false
+		}
+	}
+	return true
+}
+
+func flip(b []byte) {
+	b = b[:cap(b)]
+	for i := range b {
+		b[i] = ^b[i]
+	}
+}
+
+type runner struct {
+	sum    *hx.Summary
+	seen   map[string]bool
+	probed map[string]bool
+}
+
+func opName(s *step) string {
+	if s.Op == "ro" {
+		return strings.ToLower(s.Ro)
+	}
+	return s.Op
+}
+
+func (r *runner) mis(key, what string, tc *tcase, v *vector, k int) {
+	r.sum.Mis(key, what, map[string]interface{}{"case": tc.name, "ops": v.Ops, "step": k + 1})
+}
+
+// episode executes one exported behaviour on one case.
+func (r *runner) episode(tc *tcase, v *vector) {
+	objs := map[int]object{1: tc.build()}
+	how := map[int]string{1: "built"} // how each object was obtained (names findings; never judges)
+	buf, err := objs[1].Pack()
+	if err != nil {
+		hx.Die("case %s: the populated instance does not pack: %v", tc.name, err)
+	}
+	bufSaved := append([]byte(nil), buf...)
+	snaps := map[int]*rw.Snap{1: rw.Walk(objs[1].Root())}
+	live := []int{1}
+	for k := range v.Ops {
+		s := &v.Ops[k]
+		r.sum.Evaluations++
+		ok := true
+		switch s.Op {
+		case "copy":
+			objs[s.Y] = objs[s.X].Copy()
+			how[s.Y] = "copy"
+		case "unpack":
+			if !s.BufOK {
+				hx.Die("vector unpacks an invalid buffer")
+			}
+			o, err := tc.unpack(buf)
+			if err != nil {
+				hx.Die("case %s: cannot unpack its own packing: %v", tc.name, err)
+			}
+			objs[s.Y] = o
+			how[s.Y] = "unpack"
+		case "mutate":
+			r.probe(tc, v, k, objs, snaps, live, s.X, buf, bufSaved)
+			objs[s.X].Persist(s.Slot)
+		case "scribble":
+			flip(buf)
+			flip(bufSaved)
+		case "ro":
+			var other object
+			if s.Y != 0 {
+				other = objs[s.Y]
+			}
+			ok = objs[s.X].RO(s.Ro, other, r.sum, tc.name)
+		default:
+			hx.Die("unknown op %q", s.Op)
+		}
+		r.seen[tc.name+"/"+opName(s)+"/"+strconv.FormatBool(ok)] = true
+		if !bytes.Equal(buf[:cap(buf)], bufSaved[:cap(buf)]) {
+			r.mis(opName(s)+"/writes-into-buffer", fmt.Sprintf("%s: step %s changed the octets of the wire buffer", tc.name, opName(s)), tc, v, k)
+			copy(bufSaved, buf)
+		}
+		// observe
+		now := map[int]*rw.Snap{}
+		for _, o := range s.Live {
+			if objs[o] == nil {
+				hx.Die("vector/harness disagree on live objects at step %d", k+1)
+			}
+			now[o] = rw.Walk(objs[o].Root())
+		}
+		// 1. values: exactly the objects the specification lets change did change
+		for _, o := range live {
+			changed := now[o].Exact() != snaps[o].Exact()
+			exp := has(s.Chg, o)
+			if changed && !exp {
+				name, path := rw.FirstDiff(snaps[o], now[o])
+				var key string
+				switch s.Op {
+				case "mutate":
+					key = "copy/" + name + "-shared"
+				case "scribble":
+					key = "unpack/" + name + "-aliases-buffer"
+				case "ro":
+					key = "readonly/" + opName(s) + "-mutates:" + name
+				default:
+					key = s.Op + "/mutates-existing-object:" + name
+				}
+				r.mis(key, fmt.Sprintf("%s: %s on object %d changed object %d (%s) at %s", tc.name, opName(s), s.X, o, how[o], path), tc, v, k)
+			}
+			if !changed && exp {
+				hx.Die("case %s: mutation of object %d was not observable (harness defect)", tc.name, o)
+			}
+			if now[o].Bk != snaps[o].Bk && !has(s.BkMay, o) {
+				r.mis(opName(s)+"/bookkeeping-changed-outside-arguments", fmt.Sprintf("%s: %s changed RDLENGTH/extended-RCODE bookkeeping of object %d", tc.name, opName(s), o), tc, v, k)
+			}
+		}
+		// 2. Copy: equal value
+		if len(s.Eq) == 2 {
+			a, b := now[s.Eq[0]], now[s.Eq[1]]
+			if a.Norm() != b.Norm() {
+				name := "shape"
+				for i := 0; i < len(a.Parts) && i < len(b.Parts); i++ {
+					if a.Parts[i].Norm != b.Parts[i].Norm {
+						name = b.Parts[i].Name
+						break
+					}
+				}
+				r.mis("copy/value-differs:"+name, fmt.Sprintf("%s: the copy differs from its source in %s", tc.name, name), tc, v, k)
+			}
+		}
+		// 3. regions: disjoint wherever the specification's are
+		for i, a := range s.Live {
+			if s.Buf != 0 && !has(s.Regs[a-1], s.Buf) {
+				for _, j := range rw.OverlapBuf(now[a], buf) {
+					key := "unpack/" + now[a].Regions[j].Name + "-aliases-buffer"
+					if how[a] != "unpack" {
+						key = "pack/" + now[a].Regions[j].Name + "-aliases-buffer"
+					}
+					r.mis(key, fmt.Sprintf("%s: object %d (%s) overlaps the wire buffer at %s", tc.name, a, how[a], now[a].Regions[j].Paths[0]), tc, v, k)
+				}
+			}
+			for _, b := range s.Live[i+1:] {
+				if !disjointInts(s.Regs[a-1], s.Regs[b-1]) {
+					continue
+				}
+				for _, pr := range rw.Overlap(now[a], now[b]) {
+					ia, ib := pr[0], pr[1]
+					key := how[b] + "/" + now[b].Regions[ib].Name + "-shared"
+					r.mis(key, fmt.Sprintf("%s: objects %d (%s) and %d (%s) share memory: %s / %s", tc.name, a, how[a], b, how[b],
+						now[a].Regions[ia].Paths[0], now[b].Regions[ib].Paths[0]), tc, v, k)
+				}
+			}
+		}
+		snaps = now
+		live = s.Live
+	}
+}
+
+// probe performs a Mutate of EVERY writable cell of object x (scalars, strings, slice
+// elements, slice headers, pointers, interfaces, map entries), one at a time, and looks
+// at every other object and at the buffer after each; the cell is then restored.
+func (r *runner) probe(tc *tcase, v *vector, k int, objs map[int]object, snaps map[int]*rw.Snap, live []int, x int, buf, bufSaved []byte) {
+	sig := tc.name + "|" + strconv.Itoa(x)
+	for _, s := range v.Ops[:k] { // the aliasing structure depends on the creation history only
+		if s.Op == "copy" || s.Op == "unpack" {
+			sig += fmt.Sprintf("|%s%d>%d", s.Op, s.X, s.Y)
+		}
+	}
+	if r.probed[sig] {
+		return
+	}
+	r.probed[sig] = true
+	before, cells := rw.WalkCells(objs[x].Root())
+	// quick tier, whole messages: every cell of the message's own stores (header, question,
+	// section slices), one in `stride' of the cells inside its records (the per-type cases
+	// probe every cell of every record type)
+	stride := 1
+	if !hx.Thorough() && strings.HasPrefix(tc.name, "Msg") {
+		stride = 6
+	}
+	for ci, c := range cells {
+		if stride > 1 && !strings.HasPrefix(c.Name, "msg") && (ci+int(hx.Seed()))%stride != 0 {
+			continue
+		}
+		revert := c.Mutate()
+		r.sum.Evaluations++
+		for _, y := range live {
+			if y == x {
+				continue
+			}
+			if got := rw.Walk(objs[y].Root()); got.Exact() != snaps[y].Exact() {
+				name, path := rw.FirstDiff(snaps[y], got)
+				r.mis("copy/"+name+"-shared", fmt.Sprintf("%s: writing %s of object %d is visible in object %d at %s", tc.name, c.Path, x, y, path), tc, v, k)
+			}
+		}
+		if !bytes.Equal(buf, bufSaved) {
+			r.mis("pack/"+c.Name+"-aliases-buffer", fmt.Sprintf("%s: writing %s of object %d changed the wire buffer", tc.name, c.Path, x), tc, v, k)
+		}
+		revert()
+	}
+	if after := rw.Walk(objs[x].Root()); after.Exact() != before.Exact() {
+		hx.Die("case %s: probe did not restore object %d", tc.name, x)
+	}
+}
+
+func replay(path string, shard, nshards int, only string) {
+	initKey()
+	sum := &hx.Summary{}
+	r := &runner{sum: sum, seen: map[string]bool{}, probed: map[string]bool{}}
+	cs := cases()
+	var vecs []*vector
+	hx.ReadNDJSON(path, func(i int, v *vector) { vecs = append(vecs, v) })
+	n := 0
+	for ci := range cs {
+		tc := &cs[ci]
+		if ci%nshards != shard {
+			continue
+		}
+		for vi, v := range vecs {
+			if only != "" && tc.name != only {
+				continue
+			}
+			if v.Case != "" && v.Case != tc.name {
+				continue
+			}
+			if p := hx.Catch(func() { r.episode(tc, v) }); p != "" {
+				sum.Mis("panic:"+tc.name, "panic: "+p, map[string]interface{}{"case": tc.name, "ops": v.Ops})
+			}
+			n++
+			if vi%499 == 0 && ci%23 == 0 {
+				sum.Sample(map[string]interface{}{"case": tc.name, "ops": opNames(v)})
+			}
+		}
+	}
+	sum.Nontrivial = len(r.seen)
+	sum.Note("episodes", n)
+	sum.Print()
+}
+
+func opNames(v *vector) []string {
+	var s []string
+	for i := range v.Ops {
+		s = append(s, fmt.Sprintf("%s(%d,%d)", opName(&v.Ops[i]), v.Ops[i].X, v.Ops[i].Y))
+	}
+	return s
+}
+
+// ---------------------------------------------------------------------------
+// record
+
+type evObj struct {
+	O int      `json:"o"`
+	S []int    `json:"s"`
+	B int      `json:"b"`
+	N []string `json:"n"`
+}
+
+type event struct {
+	I    int      `json:"i"`
+	Ev   string   `json:"ev"`
+	T    string   `json:"t"`
+	Op   string   `json:"op,omitempty"`
+	X    int      `json:"x"`
+	Y    int      `json:"y"`
+	R    int      `json:"r"`
+	Xs   []int    `json:"xs"`
+	Objs []evObj  `json:"objs"`
+	Mem  [][2]int `json:"mem"`
+	Buf  int      `json:"buf"`
+}
+
+type ival struct {
+	lo, hi uintptr
+	id     int
+}
+
+type recorder struct {
+	w       *hx.Writer
+	intern  map[string]int
+	table   []ival // region ids of the current episode
+	nextReg int
+	n       int
+}
+
+func (rc *recorder) digest(s string) int {
+	if id, ok := rc.intern[s]; ok {
+		return id
+	}
+	id := len(rc.intern) + 1
+	rc.intern[s] = id
+	return id
+}
+
+// regionID names the backing store an address interval belongs to: intervals that
+// overlap are the same store.
+func (rc *recorder) regionID(lo, hi uintptr) int {
+	for i := range rc.table {
+		t := &rc.table[i]
+		if lo < t.hi && t.lo < hi {
+			if lo < t.lo {
+				t.lo = lo
+			}
+			if hi > t.hi {
+				t.hi = hi
+			}
+			return t.id
+		}
+	}
+	rc.nextReg++
+	rc.table = append(rc.table, ival{lo, hi, rc.nextReg})
+	return rc.nextReg
+}
+
+func (rc *recorder) emit(e *event, objs map[int]object, buf []byte) {
+	ids := make([]int, 0, len(objs))
+	for o := range objs {
+		ids = append(ids, o)
+	}
+	sort.Ints(ids)
+	mem := map[int]string{}
+	var order []int
+	for _, o := range ids {
+		sn := rw.Walk(objs[o].Root())
+		eo := evObj{O: o, B: rc.digest("bk:" + sn.Bk)}
+		for _, g := range sn.Parts {
+			if g.HiLen <= g.Lo {
+				continue
+			}
+			id := rc.regionID(g.Lo, g.HiLen)
+			if _, ok := mem[id]; !ok {
+				order = append(order, id)
+			}
+			if has(eo.S, id) { // two stores of one object merged by a third interval: keep both contents
+				mem[id] += "|" + g.Norm
+				continue
+			}
+			mem[id] = g.Norm
+			eo.S = append(eo.S, id)
+			eo.N = append(eo.N, g.Name)
+		}
+		e.Objs = append(e.Objs, eo)
+	}
+	lo, hi := rw.BufInterval(buf)
+	e.Buf = rc.regionID(lo, hi)
+	if _, ok := mem[e.Buf]; !ok {
+		order = append(order, e.Buf)
+		mem[e.Buf] = "buf:" + string(buf[:cap(buf)])
+	}
+	for _, id := range order {
+		e.Mem = append(e.Mem, [2]int{id, rc.digest(mem[id])})
+	}
+	rc.n++
+	e.I = rc.n
+	if e.Xs == nil {
+		e.Xs = []int{}
+	}
+	rc.w.Emit(e)
+}
+
+func record(out string, episodes int) {
+	initKey()
+	rng := hx.Rand()
+	sum := &hx.Summary{}
+	rc := &recorder{w: hx.NewWriter(out), intern: map[string]int{}}
+	cs := cases()
+	small := tcase{name: "Msg/small",
+		build: func() object { return &msgObj{buildMsg(true), false} },
+		unpack: func(buf []byte) (object, error) {
+			m := new(dns.Msg)
+			if err := m.Unpack(buf); err != nil {
+				return nil, err
+			}
+			return &msgObj{m, false}, nil
+		}}
+	smallTo := small
+	smallTo.name = "Msg/small/CopyTo"
+	smallTo.build = func() object { return &msgObj{buildMsg(true), true} }
+	cs = append(cs[:len(cs)-2], small, smallTo) // the full-size messages are for the replay tier
+	ro := []string{"Pack", "Len", "String", "IsDuplicate", "Copy", "Sign", "Verify"}
+	seen := map[string]bool{}
+	var keep [][]byte // scribbled and replaced buffers stay referenced: their addresses must not be reused within an episode
+	for ep := 0; ep < episodes; ep++ {
+		tc := &cs[rng.Intn(len(cs))]
+		// the interesting types more often
+		if rng.Intn(3) == 0 {
+			pick := []string{"OPT", "SVCB", "HTTPS", "APL", "VERIFPRIV", "Msg/small", "Msg/small/CopyTo", "AAAA", "IPSECKEY"}
+			want := pick[rng.Intn(len(pick))]
+			for i := range cs {
+				if cs[i].name == want {
+					tc = &cs[i]
+				}
+			}
+		}
+		rc.table, rc.nextReg = nil, 0
+		keep = keep[:0]
+		objs := map[int]object{1: tc.build()}
+		buf, err := objs[1].Pack()
+		if err != nil {
+			hx.Die("case %s does not pack: %v", tc.name, err)
+		}
+		valid := true
+		rc.emit(&event{Ev: "reset", T: tc.name}, objs, buf)
+		nops := 4 + rng.Intn(5)
+		for k := 0; k < nops; k++ {
+			ids := make([]int, 0, len(objs))
+			for o := range objs {
+				ids = append(ids, o)
+			}
+			sort.Ints(ids)
+			x := ids[rng.Intn(len(ids))]
+			next := len(objs) + 1
+			c := rng.Intn(10)
+			sum.Evaluations++
+			switch {
+			case c < 2 && next <= 6:
+				objs[next] = objs[x].Copy()
+				rc.emit(&event{Ev: "copy", T: tc.name, X: x, Y: next}, objs, buf)
+				seen[tc.name+"/copy"] = true
+			case c < 3 && next <= 6:
+				if !valid {
+					flip(buf)
+					valid = true
+					rc.emit(&event{Ev: "scribble", T: tc.name}, objs, buf)
+				}
+				o, err := tc.unpack(buf)
+				if err != nil {
+					hx.Die("case %s: cannot unpack its own packing: %v", tc.name, err)
+				}
+				objs[next] = o
+				rc.emit(&event{Ev: "unpack", T: tc.name, Y: next}, objs, buf)
+				seen[tc.name+"/unpack"] = true
+			case c < 5:
+				// Mutate(x, r): every scalar cell of one backing store; recorded, then restored (a second Mutate)
+				sn, cells := rw.WalkCells(objs[x].Root())
+				part := rng.Intn(len(sn.Parts))
+				g := sn.Parts[part]
+				if g.HiLen <= g.Lo {
+					continue
+				}
+				rid := rc.regionID(g.Lo, g.HiLen)
+				var reverts []func()
+				for _, cl := range cells {
+					if cl.RawPart == part && !cl.Ref {
+						reverts = append(reverts, cl.Mutate())
+					}
+				}
+				if len(reverts) == 0 {
+					continue
+				}
+				rc.emit(&event{Ev: "mutate", T: tc.name, X: x, R: rid}, objs, buf)
+				for i := len(reverts) - 1; i >= 0; i-- {
+					reverts[i]()
+				}
+				rc.emit(&event{Ev: "mutate", T: tc.name, X: x, R: rid}, objs, buf)
+				seen[tc.name+"/mutate"] = true
+			case c < 6:
+				flip(buf)
+				valid = !valid
+				rc.emit(&event{Ev: "scribble", T: tc.name}, objs, buf)
+			case c < 7:
+				nb, err := objs[x].Pack()
+				if err != nil {
+					continue
+				}
+				keep = append(keep, buf)
+				buf, valid = nb, true
+				rc.emit(&event{Ev: "newbuf", T: tc.name, X: x}, objs, buf)
+			default:
+				op := ro[rng.Intn(len(ro))]
+				xs := []int{x}
+				var other object
+				if op == "IsDuplicate" {
+					y := ids[rng.Intn(len(ids))]
+					other = objs[y]
+					if y != x {
+						xs = append(xs, y)
+					}
+				}
+				var ok bool
+				if p := hx.Catch(func() { ok = objs[x].RO(op, other, sum, tc.name) }); p != "" {
+					sum.Mis("panic:"+op+":"+tc.name, "panic: "+p, map[string]interface{}{"case": tc.name})
+				}
+				rc.emit(&event{Ev: "ro", T: tc.name, Op: op, X: x, Xs: xs}, objs, buf)
+				seen[tc.name+"/"+op+"/"+strconv.FormatBool(ok)] = true
+			}
+		}
+	}
+	rc.w.Close()
+	sum.Nontrivial = len(seen)
+	sum.Note("events", rc.n)
+	sum.Print()
+}
+
+func main() {
+	if len(os.Args) < 2 {
+		hx.Die("usage: heap replay|record|kinds ...")
+	}
+	debug.SetGCPercent(400)
+	if pf := os.Getenv("HEAP_PROF"); pf != "" {
+		f, _ := os.Create(pf)
+		pprof.StartCPUProfile(f)
+		defer pprof.StopCPUProfile()
+	}
+	switch os.Args[1] {
+	case "replay":
+		if len(os.Args) < 5 {
+			hx.Die("usage: heap replay <vectors> <shard> <nshards> [case]")
+		}
+		sh, _ := strconv.Atoi(os.Args[3])
+		n, _ := strconv.Atoi(os.Args[4])
+		only := ""
+		if len(os.Args) > 5 {
+			only = os.Args[5]
+		}
+		replay(os.Args[2], sh, n, only)
+	case "record":
+		n, _ := strconv.Atoi(os.Args[3])
+		record(os.Args[2], n)
+	case "kinds":
+		for _, c := range cases() {
+			o := c.build()
+			sn, cells := rw.WalkCells(o.Root())
+			fmt.Printf("%-14s regions=%d cells=%d\n", c.name, len(sn.Regions), len(cells))
+		}
+	default:
+		hx.Die("unknown mode %s", os.Args[1])
 	}
 }
